@@ -67,6 +67,51 @@ impl Drop for RefusingPort {
     }
 }
 
+/// A loopback port set aside for a server that insists on binding by address
+/// (`start_server(addr, ..)`): the guard binds it with SO_REUSEADDR and never listens. While the
+/// guard lives the kernel hands the port to nobody else — neither to a `bind(port 0)` nor as the
+/// source port of an outgoing connection (automatic port selection skips every port that has a
+/// bound socket, SO_REUSEADDR or not) — while an explicit `bind(addr:port)` by a listener that
+/// also sets SO_REUSEADDR (tokio's `TcpListener::bind` does) succeeds, because the guard is not
+/// listening. Connections go to the one listening socket. Picking a port by binding port 0,
+/// closing that socket and letting the server bind the number leaves a window in which the number
+/// is free; this does not. (Linux semantics; checked on this kernel by exhausting the ephemeral
+/// range both ways while a guard was held — DESIGN B.9.)
+pub struct ReservedPort {
+    fd: i32,
+    pub port: u16,
+}
+
+impl ReservedPort {
+    pub fn new() -> ReservedPort {
+        // SAFETY: plain socket/setsockopt/bind/getsockname on a fresh fd owned by the guard.
+        unsafe {
+            let fd = libc::socket(libc::AF_INET, libc::SOCK_STREAM | libc::SOCK_CLOEXEC, 0);
+            assert!(fd >= 0, "socket for a reserved port");
+            let one: libc::c_int = 1;
+            let r = libc::setsockopt(fd, libc::SOL_SOCKET, libc::SO_REUSEADDR, std::ptr::addr_of!(one).cast(), std::mem::size_of::<libc::c_int>() as u32);
+            assert!(r == 0, "SO_REUSEADDR on a reserved port");
+            let mut addr: libc::sockaddr_in = std::mem::zeroed();
+            addr.sin_family = libc::AF_INET as u16;
+            addr.sin_addr.s_addr = u32::from_be_bytes([127, 0, 0, 1]).to_be();
+            addr.sin_port = 0;
+            let r = libc::bind(fd, std::ptr::addr_of!(addr).cast(), std::mem::size_of::<libc::sockaddr_in>() as u32);
+            assert!(r == 0, "bind a reserved port");
+            let mut len = std::mem::size_of::<libc::sockaddr_in>() as u32;
+            let r = libc::getsockname(fd, std::ptr::addr_of_mut!(addr).cast(), &mut len);
+            assert!(r == 0);
+            ReservedPort { fd, port: u16::from_be(addr.sin_port) }
+        }
+    }
+}
+
+impl Drop for ReservedPort {
+    fn drop(&mut self) {
+        // SAFETY: closing our own fd.
+        unsafe { libc::close(self.fd) };
+    }
+}
+
 #[derive(Default, Clone, Debug)]
 pub struct MockLog {
     /// one entry per accepted connection: the request line / command received
